@@ -70,6 +70,7 @@ Inductive frame :=
 | FRead            (* stream.read() of command_phase *)
 | FHandler         (* the dispatched handler *)
 | FChangeUser      (* inside the try around authenticate() in handle_change_user *)
+| FChangeUserReset (* inside the try around session.reset() there: the OK of the exchange is already written *)
 | FHandlerErr (waskill : bool)   (* an ERR write inside one of the except clauses *)
 | FKillErr         (* the ERR write of _start's `except CancelledError` *)
 | FClose (reraise : bool).       (* finally: await session.close() *)
@@ -335,6 +336,14 @@ Definition throw (s : st) (x : exn) (f : frame) : thrown :=
       | XCancel, None => ToClose (set_seq (set_exec s false) 0) true
       | _, _ => Continue s [MWrite (PErr E_UNKNOWN_ERROR) SZ_ERR true; MRaise XAuthFailed None] FHandler
       end
+  | FChangeUserReset =>
+      (* except Exception: raise AuthenticationFailed (no second packet); a CancelledError reaches command_phase *)
+      match x, kill s with
+      | XCancel, Some KQ => Continue (set_exec s false) (errplan E_SESSION_WAS_KILLED) (FHandlerErr true)
+      | XCancel, Some KC => Continue (set_seq (set_exec s false) 0) (errplan E_SESSION_WAS_KILLED) FKillErr
+      | XCancel, None => ToClose (set_seq (set_exec s false) 0) true
+      | _, _ => ToClose (set_exec s false) false
+      end
   | FHandlerErr _ =>
       (* an exception while the ERR is written leaves command_phase (finally: reset_seq) *)
       let s := set_seq s 0 in
@@ -469,7 +478,7 @@ Definition end_plan (s : st) (f : frame) : endact :=
   match f with
   | FConn => EGo (set_phase (set_inited s) Command) [] FRead            (* session.init returned *)
   | FConnErr => EFinish s true                                          (* `raise` after the ERR *)
-  | FHandler | FChangeUser => EGo (set_seq (set_exec s false) 0) [] FRead   (* finally: reset_seq *)
+  | FHandler | FChangeUser | FChangeUserReset => EGo (set_seq (set_exec s false) 0) [] FRead   (* finally: reset_seq *)
   | FHandlerErr wk => EGo (set_seq (if wk then set_kill s None else s) 0) [] FRead
   | FKillErr => EGo (inc_closes (set_kill s None)) [MApp SClose] (FClose false)
   | FClose re => EFinish s re
@@ -484,7 +493,7 @@ Definition end_plan (s : st) (f : frame) : endact :=
       end
   end.
 
-Definition is_handler (f : frame) : bool := match f with FHandler | FChangeUser => true | _ => false end.
+Definition is_handler (f : frame) : bool := match f with FHandler | FChangeUser | FChangeUserReset => true | _ => false end.
 Definition prepend (o : list out) (r : st * list out) : st * list out := (fst r, o ++ snd r).
 
 Fixpoint run (fuel : nat) (s : st) (k : plan) (f : frame) : st * list out :=
@@ -590,7 +599,7 @@ Definition auth_plan (d : adecision) (change_user : bool) : plan :=
   | AMore => [MWrite PAuthMore SZ_OK true; MRead]
   | ASuccess =>
       MAuthed :: MWrite (POk false 0) SZ_OK true ::
-      (if change_user then [MEnter FHandler; MApp SReset] else [MResetSeq; MApp SInit])
+      (if change_user then [MEnter FChangeUserReset; MApp SReset] else [MResetSeq; MApp SInit])
   end.
 
 
